@@ -26,6 +26,9 @@ def alphabet(tier):
     big = "x" * 1048577
     c("create-ma", "CreateStateMachine", {"name": "ma", "roleArn": R1, "definition": S1})
     c("create-ma-d2", "CreateStateMachine", {"name": "ma", "roleArn": R2, "definition": S2, "type": "STANDARD"})
+    c("create-ma-x", "CreateStateMachine", {"name": "ma-x", "roleArn": R1, "definition": S1})
+    c("start-ma-x-e1", "StartExecution", {"stateMachineArn": sm("ma-x"), "name": "e1", "input": "{}"})
+    c("listexec-ma-x", "ListExecutions", {"stateMachineArn": sm("ma-x")})
     c("create-mb-express", "CreateStateMachine", {"name": "mb", "roleArn": R1, "definition": S2, "type": "EXPRESS", "loggingConfiguration": LOG_ALL})
     for tag, nm in (("empty", ""), ("space", "a b"), ("81", "n" * 81), ("colon", "a:b"), ("slash", "a/b"), ("star", "a*"), ("int", 5), ("null", None)):
         c("create-badname-" + tag, "CreateStateMachine", {"name": nm, "roleArn": R1, "definition": S1}, {"InvalidName"} if isinstance(nm, str) else VALIDATION)
@@ -300,7 +303,7 @@ def bfs(tier, blocking=False, shared_only=False):
     frontier = [(sut.snapshot(), ref0, [])]
     states = transitions = 0
     findings = {}
-    max_states = 60 if tier == "quick" else 100000
+    max_states = 160 if tier == "quick" else 100000
     depth = 0
     capped = False
     while frontier:
